@@ -53,6 +53,23 @@ def build(tier, ctx):
         for i in range(0, len(subs), 24):
             tasks.append({"name": nm, "defn": dsl.to_list(d), "k": 2,
                           "mode": "c01sub", "subsets": subs[i:i + 24]})
+    # feature-defined subsets (loops once / via break / OR single ...) for
+    # the definitions that are too large for all subsets
+    done = {t["name"] + repr(t["defn"]) for t in tasks
+            if t["mode"] == "c01sub"}
+    fdefs = pvcommon.scope_defs(ctx["repo"], 5 if tier == "quick" else 7,
+                                with_corpus=False)
+    fdefs += pvcommon.skeleton_defs(tier)
+    fdefs += pvcommon.extended_defs(0, staged=True, bunched=False,
+                                    leadloop=5)
+    for nm, d in fdefs:
+        if nm + repr(dsl.to_list(d)) in done:
+            continue
+        jobs = semantics.executions(d, 2)
+        subs = [idx for _, idx in pvcommon.feature_subsets(d, jobs)]
+        if subs:
+            tasks.append({"name": nm, "defn": dsl.to_list(d), "k": 2,
+                          "mode": "c01sub", "subsets": subs})
     return tasks
 
 
@@ -66,7 +83,9 @@ def collect(tier, tasks, results, ctx):
               "loop_bound_k": 2,
               "incomplete_evidence": "every proper non-empty subset of "
               "J_2(D) for |J| <= 7, singletons and leave-one-out for "
-              "|J| <= 16; D in " + ("F_4 and the fork-only definitions of F_5"
+              "|J| <= 16, feature-defined subsets (loops once / "
+              "via break / OR single / OR all / detached) for every other "
+              "definition of the scope; all-subsets D in " + ("F_4 and the fork-only definitions of F_5"
                                    if tier == "quick" else "F_6")}
     rule = ("every definition of fragment F up to the bound and every corpus "
             "definition; complete job set with each loop run 1..k times; "
